@@ -13,6 +13,11 @@ CHECKS = {
    text="Every slice/int index with |i|<=n for n<=7, every ordered pair of slices on [0,9], every pad/scale in the stated ranges and every 1-3 point set from a 13-value alphabet (nan, inf, beyond int32) is executed on the real helpers and compared with numpy indexing on arange(n) / an exact-integer envelope model. Complete within those bounds; nothing sampled.",
    note="Trusts numpy indexing as the reference semantics. Out-of-range indices (|i|>n) are outside the property's quantifier.",
    design="4/C17", thorough=False),
+ "C06": dict(level="model_checking", engine="E2+E3b",
+   technique="explicit-state search: interval DP over all binary merge trees on the real MPUChunk code + exhaustive dask task-order exploration within a deviation bound",
+   text="For every configuration in a stated finite product (partition contents, writes per chunk, spill size, header/footer, writer limits) the reachable states of EVERY binary merge tree over the partitions are computed by interval dynamic programming whose transitions are calls of the real append/merge/spill/finalise code against a recording writer; all stream, part-id, part-size, finalise and callback invariants are evaluated on every reachable root. The real mpu_write dask graphs are additionally executed task by task in every order within 1 (quick) / 2 (thorough) deviations from dask's static order and must end in a final writer log the DP also reaches.",
+   note="Bounds: <=4 (quick) / <=6 (thorough) partitions, <=3 chunks per partition, min part 4 bytes. Recording writer is sequentially consistent (writer concurrency is C18). No separate model: every explored trace is an implementation trace.",
+   design="4/C06", thorough=True),
 }
 NOT_YET = "check not built yet in this session (design in DESIGN.md section 4); no claim made"
 
